@@ -56,6 +56,11 @@ CHECKS = {
    "The oracle is the specification's direct evaluation of the graph, independent of fragmentComposer's register allocation, IO renumbering and bond creation; the same graph is replayed under several mappings including the two extremes, with fragments that reuse register names, use scratch registers, have several outputs, ports on unusual registers and internal labels, with fan-out of ports and of external inputs, and with graphs large enough for two-digit temporaries.",
    "Graphs of 3-5 instances with every partition and name permutation reachable, and graphs of 26 instances with four fixed mappings (all-on-one, one-each reversed, odd/even, halves); 8 fragments; rsize 8 and 16; asynchronous I/O only (the composer's default), outputs read after they have been stable for 150 ticks. Trusted: TLC, the printer from the spec's graph to .basm text.",
    "DESIGN.md §4 C06", "bmverif"),
+ "C16": ("model_checking",
+   "TLA+ spec BMWellFormed (well-formedness of an emitted machine as WhyNot: opcode list sorted and duplicate-free, ROM large enough for code plus data, every ROM word of the architecture's width and decoding with the field table of BMIsa to an opcode of the processor with every port operand in range, zero padding, register sizes agreeing, demands of the source) judges a log of every machine emitted by the real front-ends for the sources of the specifications' grammars: BasmSem programs, FragGraph graphs under their mappings, the BasmShapes catalogue (ROM data sections of every size, hybrid ROM+RAM processors with every opcode overlap, pass-through bonds with every index and declaration arrangement, misfit literals), GoSubset programs through bondgo, FrontendShapes networks through neuralbond+basm and circuits through bmqsim+basm; the emitted bond graph is trace-validated by TLC against BMTopologyAbs (the graph the source names, on names, and AbsWF)",
+   "The validator is a TLA+ predicate that shares nothing with the front-ends: it recomputes field widths and the word size from R/N/M/L/O and the opcode list with the format table that C03 binds to the real assembler, so an under-sized ROM, a duplicated or unsorted opcode, a mis-sized word or a dropped port shows on the first machine that has it; the sources come from bounded catalogues that sweep the boundaries (code+data across powers of two, every subset of shared opcodes, every port arrangement).",
+   "Machines of 1-2 processors from BasmSem, up to 26 fragment instances, 155 shapes, 36 bondgo programs, 126 networks and 68 circuits (quick: a quarter of the networks/circuits); operand fields other than port indexes are as wide as their range and are not re-checked; opcodes outside BMIsa's table get the generic checks only; RAM programs of hybrid processors are not decoded. A source that cannot fit must be rejected (4 kinds of over-wide literal x 2 register sizes). Trusted: TLC, the projection wfRecord/readTopo of the emitted object.",
+   "DESIGN.md §4 C16", "bmverif"),
  "C12": ("model_checking",
    "TLA+ spec BondgoSync (visitor / Var_assigner / Usage_Monitor over unbuffered channels) model-checked by TLC for deadlock freedom, termination under fairness, NotifiedBeforeExit and SameRequirements; the real compiler (verif build) run under schedules forced by delays at every hook point, hook logs and process outcomes trace-validated by TLC; TLA+ reference semantics GoSubset simulated by TLC to build programs with expected output streams, compiled by the real bondgo, simulated by the real VM and compared",
    "The protocol model explores every interleaving of the compiler's three goroutines and singles out the schedule that deadlocks a given ordering of the assigner's answer/notify pair; the real compiler is then driven into exactly those schedules (and the others reachable by delaying each synchronisation point), must terminate in all of them and must emit identical artefacts. Independently, programs drawn from the reference semantics are compiled and executed and their output streams must equal the specification's.",
